@@ -17,7 +17,7 @@ MC_INV = {
     "C07": ["CompactionSafe", "IndexAgrees"],
 }
 T_MON = {
-    "C03": ["M_ReadIsSnapshot", "M_MoreFlag", "M_CountIsSnapshot", "M_StreamIsSnapshot", "M_ReadableServed", "M_HeaderCoversData"],
+    "C03": ["M_ReadIsSnapshot", "M_MoreFlag", "M_CountIsSnapshot", "M_StreamIsSnapshot", "M_ReadableServed", "M_HeaderCoversData", "M_ReadStable"],
     "C08": ["M_FloorMonotone", "M_FloorAccepted", "M_BelowFloorRefused", "M_CompactClampCommitted"],
     "C13": ["M_ReadIsSnapshot", "M_CountIsSnapshot", "M_StreamIsSnapshot", "M_StreamOneTerminator", "M_StreamBatchRevision"],
     "C12": ["M_EnginesAgree"],
@@ -178,6 +178,10 @@ def check_seq(prop, tier, seed):
             else:
                 alltraces += traces
             allagree += agrees
+        if prop == "C03":
+            # "... and returns the same answer whenever it is asked again": reads answered while writes are in flight
+            # (reader processes of the concurrent model), judged when answered and again when everything has settled
+            alltraces += fam_write.reader_part(work, binp, cov, quick, seed)
         # ---- 3. verdicts from trace validation
         if prop == "C12":
             ntr, v = validate_all(work, allagree, T_MON[prop], module="TraceAgree.tla")
